@@ -17,6 +17,7 @@ Proof.
   - eapply stepF_main; eauto 6.
   - eapply stepF_main; eauto 7.
   - eapply stepF_main; eauto 7.
+  - eapply stepF_main; eauto 8.
   - eapply stepF_notify; eauto.
   - eapply stepF_swap; eauto.
   - eapply stepF_done; eauto.
